@@ -184,14 +184,13 @@ class Lib:
 
 
 def expected_out(job, file_arg):
+    """relative path of the file the run must create (None: nothing). Inputs are always named [dir/]<name>.c"""
     fl = job["flags"]
     if fl.get("no_save"):
         return None
     if fl.get("out"):
         return fl["out"]
-    base = os.path.basename(file_arg)
-    stem = base[:base.rindex(".")] if "." in base.strip(".") and not base.startswith(".") else base   # names used here: plain `x.c`
-    return os.path.join("output", stem + ".json")
+    return os.path.join("output", job["name"] + ".json")
 
 
 def last_exc(err):
@@ -362,17 +361,17 @@ def all_flag_dicts():
                 yield d
 
 
-def quick_bases(rng, n):
-    """n flag dicts without the no_cpp bit, jointly covering every value of every flag."""
-    for _ in range(200):
-        bs = []
-        for _ in range(n):
-            bs.append({"mode": rng.choice([None, "F", "L", "L", "f", "l"]), "fin": rng.random() < 0.5, "strict": rng.random() < 0.5,
-                       "no_save": rng.random() < 0.3, "out": rng.choice([None, None, "o.json", "res/deep/out.json"]),
-                       "log": rng.choice([None, "silent", "info"])})
-        cov = {(k, str(b[k])) for b in bs for k in b}
-        if len(cov) >= 6 + 2 + 2 + 2 + 3 + 3 - 1:
-            return bs
+def quick_bases(rng, n=4):
+    """n >= 4 flag dicts (without the no_cpp bit): loop and function mode, both values of fin and of strict on saving runs,
+    at most one --no_save run; the rest random."""
+    bs = []
+    for k in range(n):
+        bs.append({"mode": rng.choice(["L", "l"]) if k % 2 == 0 else rng.choice([None, "F", "f"]),
+                   "fin": rng.random() < 0.5, "strict": rng.random() < 0.5, "no_save": False,
+                   "out": rng.choice([None, None, "o.json", "res/deep/out.json"]), "log": rng.choice([None, "silent", "info"])})
+    bs[0]["fin"], bs[1]["fin"], bs[2]["fin"], bs[3]["fin"] = True, True, False, False
+    bs[0]["strict"], bs[1]["strict"], bs[2]["strict"], bs[3]["strict"] = False, True, True, False
+    bs[rng.randrange(n)]["no_save"] = rng.random() < 0.6
     return bs
 
 
@@ -451,7 +450,9 @@ def search(ctx, rng, root, failing, stats):
     for key, d in by_pair.items():
         if True in d and False in d:
             dist["cpp_pairs_compared"] += 1
-            a, b = d[False][2], d[True][2]
+            a, b = (json.loads(json.dumps(d[k][2])) for k in (False, True))
+            for x in (a, b):      # each run has its own scratch directory: absolute input paths differ
+                x.get("program", {}).pop("program_path", None)
             if a != b and ("cpp-dependence",) not in seen:
                 seen.add(("cpp-dependence",))
                 job = d[True][0]
@@ -484,7 +485,7 @@ def search(ctx, rng, root, failing, stats):
 # ---------------------------------------------------------------------------------------------------
 
 def q(s):
-    assert all(32 <= ord(c) < 127 or c == "\n" for c in s), repr(s)
+    assert all(32 <= ord(c) < 127 or c in "\n\t" for c in s), repr(s)
     return vlib.cq_str(s)
 
 
@@ -645,7 +646,7 @@ def rand_cmd(rng):
         elif r < 0.76:
             opts.append(("--headers", rng.choice(["inc", "a,b", "a,,b", ",", ""]) if rng.random() < 0.95 else None))
         elif r < 0.82:
-            opts.append(("--cpp_args", rng.choice(["-E", "-E -DX", "-DX", ""])))
+            opts.append(("--cpp_args", rng.choice([" -E", " -E -DX", "x", ""])))   # a value starting with '-' is outside the model
         elif r < 0.86:
             opts.append(("--cpp_path", rng.choice(["gcc", "cc", "/usr/bin/gcc"])))
         elif r < 0.89:
